@@ -1,6 +1,7 @@
 package main
 
 import (
+	"go/token"
 	"go/types"
 	"sort"
 	"strings"
@@ -219,6 +220,7 @@ func init() {
 		o.MinSites(6)
 	})
 
+	reg("C12", "C12.13", "T3,T12", "a stored silence is never changed in place: outside the generated code, fields of a silence are written only on an object the writing function built or cloned, or on the not yet stored request", storedSilenceImmutableRule)
 	reg("C12", "C12.0", "T6", "getState: pending iff now < start; expired iff now > end; else active (both comparisons strict)", getStateRule)
 
 	reg("C12", "C12.2", "T6", "canUpdate: false for different matcher sets; active: start (seconds) unchanged ∧ new end ≥ now; pending: new start ≥ now; expired: never", func(o *Ob) {
@@ -783,4 +785,138 @@ func init() {
 		silenceConversionRule(o)
 		o.MinSites(2)
 	})
+}
+
+// storedSilenceImmutableRule: Query hands out the stored silences themselves, and the per-alert cache and
+// the replicas are only told about a change through setSilence (version bump, broadcast).  So nobody may
+// write a field of a silence it did not build or clone.  Every write to a field of silencepb.Silence or
+// MeshSilence outside the generated package must address (a) an object allocated in the writing function,
+// (b) the result of cloneSilence / proto.Clone there, or (c) the function's own parameter in one of the
+// listed functions whose contract is to fill in the caller's not yet stored object.
+func storedSilenceImmutableRule(o *Ob) {
+	e := o.E
+	ownParam := map[string]string{
+		"(*am/silence.Silences).Set":                "fills in the request (id, start, update time) before it is stored; no write after the store (checked below)",
+		"am/silence.postprocessUnmarshalledSilence": "upgrades a silence that was just decoded (callers checked below)",
+		"am/silence.prepareSilenceForMarshalling":   "fills the legacy field on the copy made for encoding (callers checked below)",
+		"am/silence.validateSilence":                "normalises the request object before it is stored",
+		"(am/silence.state).merge":                  "upgrades the incoming entry (legacy comments) before it is stored; the stored entry is only replaced, never written",
+	}
+	var classify func(fn *ssa.Function, v ssa.Value, seen map[ssa.Value]bool) string
+	classify = func(fn *ssa.Function, v ssa.Value, seen map[ssa.Value]bool) string {
+		if seen[v] {
+			return ""
+		}
+		seen[v] = true
+		switch x := v.(type) {
+		case *ssa.Alloc:
+			return ""
+		case *ssa.Parameter:
+			if _, ok := ownParam[fnName(fn)]; ok {
+				return ""
+			}
+			return "its parameter " + x.Name()
+		case *ssa.UnOp:
+			if x.Op == token.MUL {
+				// the variable's cell (a local, possibly captured): everything it is ever given
+				if cell := cellOf(x.X); cell != nil {
+					n := 0
+					for _, r := range *cell.Referrers() {
+						if st, ok := r.(*ssa.Store); ok && st.Addr == ssa.Value(cell) {
+							n++
+							if why := classify(fn, st.Val, seen); why != "" {
+								return why
+							}
+						}
+					}
+					if n > 0 {
+						return ""
+					}
+				}
+				// the silence inside a mesh silence: as good as the mesh silence
+				if fa, ok := x.X.(*ssa.FieldAddr); ok && typeKey(fa.X.Type()) == "am/silence/silencepb.MeshSilence" {
+					return classify(fn, fa.X, seen)
+				}
+			}
+		case *ssa.Extract:
+			return classify(fn, x.Tuple, seen)
+		case *ssa.Next:
+			return classify(fn, x.Iter, seen)
+		case *ssa.Range:
+			return classify(fn, x.X, seen)
+		case *ssa.Phi:
+			for _, ed := range x.Edges {
+				if why := classify(fn, ed, seen); why != "" {
+					return why
+				}
+			}
+			return ""
+		case *ssa.TypeAssert:
+			return classify(fn, x.X, seen)
+		case *ssa.ChangeType:
+			return classify(fn, x.X, seen)
+		case *ssa.Call:
+			switch calleeName(&x.Call) {
+			case "am/silence.cloneSilence", "proto.Clone", "am/silence.decodeState":
+				return "" // a copy, or entries decoded for this caller
+
+			}
+		}
+		return clip(e.X(fn, v))
+	}
+	n := 0
+	for _, T := range []string{"Silence", "MeshSilence"} {
+		nt := e.NamedType("am/silence/silencepb", T)
+		if !o.Check(nt != nil, "type|"+T, "silencepb."+T+" no longer exists", nil) {
+			continue
+		}
+		st, _ := nt.Underlying().(*types.Struct)
+		for i := 0; st != nil && i < st.NumFields(); i++ {
+			f := st.Field(i).Name()
+			for _, w := range e.Writers("am/silence/silencepb."+T, f) {
+				if fnPkgPath(w.Fn) == long("am/silence/silencepb") {
+					continue
+				}
+				n++
+				o.Site(w.Instr, w.Kind+" of "+T+"."+f+" in "+fnName(w.Fn))
+				why := classify(w.Fn, w.Base, map[ssa.Value]bool{})
+				o.Check(why == "", "silence-write|"+fnName(w.Fn)+"|"+T+"."+f, fnName(w.Fn)+" writes "+T+"."+f+" of a silence it neither built nor cloned ("+why+"): stored silences are shared with Query results, the cache and the index", w.Instr)
+			}
+		}
+	}
+	o.Check(n >= 10, "few", "implausibly few writes of silence fields found: "+itoa(n), nil)
+	// Set: nothing is written to the request after it has been handed to the store
+	set := o.Fn("(*am/silence.Silences).Set")
+	for _, c := range e.Calls(set, "(*am/silence.Silences).setSilence") {
+		r := (&Walk{Fn: set}).After(c)
+		for _, T := range []string{"Silence", "MeshSilence"} {
+			for _, in := range AllInstrs(set) {
+				if st, ok := in.(*ssa.Store); ok && r.Has(st) {
+					if fa, ok := st.Addr.(*ssa.FieldAddr); ok && typeKey(fa.X.Type()) == "am/silence/silencepb."+T {
+						o.Fail("set-write-after-store", "Set writes "+T+"."+fieldName(fa.X.Type(), fa.Field)+" after the silence was stored", st)
+					}
+				}
+			}
+		}
+		o.Site(c, "Set: no write to the request after setSilence")
+	}
+	// the callers of the two helpers that write their parameter hand them an object of their own
+	for _, h := range []string{"am/silence.postprocessUnmarshalledSilence", "am/silence.prepareSilenceForMarshalling"} {
+		hf := o.Fn(h)
+		for _, cs := range e.callers[hf] {
+			arg := cs.Instr.Common().Args[0]
+			why := classify(cs.Caller, arg, map[ssa.Value]bool{})
+			// a silence reached through a mesh silence the caller built or decoded itself
+			if why != "" {
+				if u, ok := arg.(*ssa.UnOp); ok && u.Op == token.MUL {
+					if fa, ok := u.X.(*ssa.FieldAddr); ok && typeKey(fa.X.Type()) == "am/silence/silencepb.MeshSilence" {
+						why = classify(cs.Caller, fa.X, map[ssa.Value]bool{})
+					}
+				}
+			}
+			o.Site(cs.Instr, fnName(cs.Caller)+" → "+h)
+			o.Check(why == "", "helper-arg|"+h+"|"+fnName(cs.Caller), fnName(cs.Caller)+" hands "+h+" a silence it neither built, decoded nor cloned ("+why+")", cs.Instr)
+		}
+	}
+	o.MinSites(10)
 }
